@@ -170,6 +170,8 @@ def run(index, tier="quick", seed=0) -> Result:
         res.not_in_fragment.append("ST-4 Shape2D.iq")
     from ..parallel import report as _copy1
     _copy1(res, index, lambda f: f['cls'] in ('ConvexSpheropolygon', 'ConvexSpheropolyhedron') and f['top'] in ('volume', 'surface_area', 'mean_curvature', 'signed_area', 'area', 'perimeter') or (f['cls'] == 'ConvexPolyhedron' and f['top'] in ('mean_curvature', 'tau', 'asphericity')))
+    from ..frame2 import check as _frame2
+    _frame2(res, index, "ConvexSpheropolygon", ("signed_area", "area", "perimeter"))
     return res
 
 
